@@ -144,6 +144,24 @@ func refCompare(a, b string) int {
 	return refCmpPart(ra, rb)
 }
 
+
+// dashFamily: versions with up to two '-' built from small component menus. The length-bounded enumeration above
+// reaches two dashes only in strings too short for the split point to matter ("0--0"); here the upstream part
+// itself contains a '-' next to components that order differently as upstream and as revision.
+func dashFamily(first, mid, last []string) []string {
+	var res []string
+	for _, f := range first {
+		res = append(res, f)
+		for _, l := range last {
+			res = append(res, f+"-"+l)
+			for _, m := range mid {
+				res = append(res, f+"-"+m+"-"+l)
+			}
+		}
+	}
+	return res
+}
+
 func dpkgCompare(a, b string) (int, error) {
 	for _, op := range []struct {
 		o string
@@ -260,7 +278,32 @@ func TestC33(t *testing.T) {
 			}
 		}
 	})
-	r.Info("reference_calibration_pairs_vs_dpkg", len(valid)*(len(valid)+1)/2)
+	// ... and on the multi-dash family (quick: sub-menus; thorough: the menus used below)
+	calFam := dashFamily([]string{"0", "1", "1~"}, []string{"", "1", "~", "a"}, []string{"1", "~", "a"})
+	famFirst, famMid, famLast := []string{"0", "1", "1a", "1~", "1.1"}, []string{"", "0", "1", "a", "~", "1~", "~1"}, []string{"0", "1", "a", "~", "1~", "~1"}
+	fam := dashFamily(famFirst, famMid, famLast)
+	if r.Thorough() {
+		// one dpkg process per question: the whole family (30 000 unordered pairs) does not fit the budget
+		calFam = dashFamily([]string{"0", "1", "1~", "1a"}, []string{"", "1", "~", "a", "~1"}, []string{"1", "~", "a", "1~"})
+	}
+	for _, s := range calFam {
+		if !debValid(s) {
+			eng.HarnessError("dash family member %q is not Debian-valid", s)
+		}
+	}
+	eng.ParallelFor(len(calFam), func(i int) {
+		for j := i; j < len(calFam); j++ {
+			d, err := dpkgCompare(calFam[i], calFam[j])
+			if err != nil {
+				eng.HarnessError("dpkg: %v", err)
+			}
+			if d != refCompare(calFam[i], calFam[j]) || d != -refCompare(calFam[j], calFam[i]) {
+				atomic.AddInt64(&calibBad, 1)
+				firstBad.Store(fmt.Sprintf("%q vs %q: dpkg %d ref %d", calFam[i], calFam[j], d, refCompare(calFam[i], calFam[j])))
+			}
+		}
+	})
+	r.Info("reference_calibration_pairs_vs_dpkg", len(valid)*(len(valid)+1)/2+len(calFam)*(len(calFam)+1)/2)
 	if calibBad > 0 {
 		eng.HarnessError("reference disagrees with dpkg on %d pairs, e.g. %v", calibBad, firstBad.Load())
 	}
@@ -296,6 +339,28 @@ func TestC33(t *testing.T) {
 		atomic.AddInt64(&nontrivial, nt)
 		atomic.AddInt64(&debPairs, dp)
 	})
+	// 2b. all ordered pairs of the multi-dash family
+	var famEvals, famSplitMatters int64
+	eng.ParallelFor(len(fam), func(i int) {
+		for _, b := range fam {
+			atomic.AddInt64(&famEvals, 1)
+			if k, m := checkPair(fam[i], b); k != "" {
+				if strings.HasPrefix(k, "debian:") && fam[i] > b {
+					continue
+				}
+				r.Violation(k, m, pairCase{A: fam[i], B: b})
+			}
+			// vacuity guard: pairs on which splitting at the first '-' instead of the last would change the verdict
+			if strings.Count(fam[i], "-")+strings.Count(b, "-") >= 2 && refCompare(fam[i], b) != refCompare(strings.Replace(fam[i], "-", "\x00", 1), strings.Replace(b, "-", "\x00", 1)) {
+				atomic.AddInt64(&famSplitMatters, 1)
+			}
+		}
+	})
+	r.Add("dash_family_pair_evaluations", famEvals)
+	r.Add("dash_family_strings", int64(len(fam)))
+	r.Add("dash_family_pairs_where_split_point_matters", famSplitMatters)
+	evals += famEvals
+	nontrivial += famEvals - int64(len(fam))
 	r.Add("pair_evaluations", evals)
 	r.Add("debian_domain_pairs", debPairs)
 
@@ -344,5 +409,5 @@ func TestC33(t *testing.T) {
 	r.Sample(pairCase{A: "1.0~rc1-2", B: "1.0-2"})
 	r.Sample(pairCase{A: strs[len(strs)/2], B: strs[len(strs)/3]})
 	r.Sample(pairCase{A: strs[len(strs)-1], B: strs[len(strs)-2], C: ts[n-1]})
-	r.Finish("all ordered pairs of all strings over the alphabet up to pair_len (laws: epoch rejection, reflexive, antisymmetric, Debian agreement on Debian-valid pairs) and all triples up to triple_len (transitivity, congruence); distinct_nontrivial = ordered pairs of two different Debian-valid strings, each compared against the reference")
+	r.Finish("all ordered pairs of the multi-dash family (first[-mid]-last from component menus) and all ordered pairs of all strings over the alphabet up to pair_len (laws: epoch rejection, reflexive, antisymmetric, Debian agreement on Debian-valid pairs) and all triples up to triple_len (transitivity, congruence); distinct_nontrivial = ordered pairs of two different Debian-valid strings, each compared against the reference")
 }
